@@ -81,18 +81,35 @@ def run_case(run, drv, case_seed, pool):
         for k, v in list(req.items()):
             if v is None:
                 del req[k]
+        if case_seed < 0:
+            # fixed shapes: the edited encoding is exactly k * 65536 + 1 bytes long (chunked writers)
+            target = {-1: 65537, -2: 131073, -3: 65536}[case_seed]
+            req = {"comment": "x"}
+            for _ in range(4):
+                probe = os.path.join(box, "probe.torrent")
+                shutil.copy(m["path"], probe)
+                impl.edit(probe, dict(req))
+                delta = target - os.path.getsize(probe)
+                if delta == 0:
+                    break
+                req = {"comment": "x" * max(1, len(req["comment"]) + delta)}
         # the fault-free result and trace
         good = os.path.join(box, "good.torrent")
         shutil.copy(m["path"], good)
         with effects.traced(record_reads=True, read_root=box) as tr:
             impl.edit(good, dict(req))
         new = open(good, "rb").read()
+        try:
+            refspec.strict_decode(new)
+        except refspec.BErr as exc:
+            run.fail("impl-vs-spec", {"case_seed": case_seed, "version": m["version"], "req": req},
+                     {"why": "a fault-free edit left an incomplete metafile", "error": str(exc), "size": len(new)})
         trace = [(e[0] if e[0] != "truncate" else "create",) + tuple(os.path.basename(p) for p in e[1:])
                  for e in tr.mutating()]
         reads = [os.path.basename(p) for p in tr.reads]
         case = {"case_seed": case_seed, "version": m["version"], "req": req}
         drv.ask(f"ops edit {hx(b'good.torrent')} 1", ("ops", case, (reads, trace)))
-        link = ["plain", "bare-relative", "symlink", "hardlink", "plain"][KIND[0] % 5]
+        link = ["plain", "bare-relative", "symlink", "hardlink", "part-named"][KIND[0] % 5]
         KIND[0] += 1
         case["link"] = link
         jobs = []
@@ -101,7 +118,10 @@ def run_case(run, drv, case_seed, pool):
         specs += [{"mode": "none", "req": r, "warmup": True} for r in UNENCODABLE[:3]]
         for i, f in enumerate(specs):
             path = os.path.join(box, f"f{i}.torrent")
-            if link in ("plain", "bare-relative"):
+            if link == "part-named":
+                # the metafile's own name ends in '.part' (an unfinished download of a .torrent)
+                path = os.path.join(box, f"f{i}.part" if i % 2 else f"f{i}.torrent.part")
+            if link in ("plain", "bare-relative", "part-named"):
                 shutil.copy(m["path"], path)
             else:
                 real = os.path.join(box, f"real{i}.torrent")
@@ -223,7 +243,7 @@ def run(tier, seed, replay=None):
     run = Run("C17", tier, seed, RULE)
     drv = Driver()
     seeds = [replay["case"]["case_seed"]] if replay else \
-        [run.rng.randrange(10 ** 9) for _ in range(6 if tier == "quick" else 40)]
+        [-1, -2, -3] + [run.rng.randrange(10 ** 9) for _ in range(6 if tier == "quick" else 40)]
     with concurrent.futures.ThreadPoolExecutor(max_workers=12) as pool:
         for s in seeds:
             run_case(run, drv, s, pool)
